@@ -26,6 +26,7 @@ CONSTANTS
   BugNoWitness = TRUE
   BugKeepForever = FALSE
   StaleSv = FALSE
+  BugSendUnverified = FALSE
 INVARIANTS AbsInv OwnVotesTrimmed
 PROPERTIES AbsStep
 CHECK_DEADLOCK FALSE
